@@ -290,16 +290,20 @@ def discharge(ob, inputs, both=False, timeout_ms=None):
     if ob.kind not in ("cover", "mustfail") and _has_quantifier(s.assertions()):
         # quantified VC: E-matching alone (no model-based instantiation) refutes the negated goal quickly when the
         # obligation holds; `unknown` falls through to the default configuration, which can also build models
-        s0 = z3.SolverFor("UFLIA") if False else z3.Solver()
-        s0.set("timeout", min(Z3_TIMEOUT_MS, 6000))
-        s0.set("smt.mbqi", False)
-        s0.set("smt.auto_config", False)
-        for c in s.assertions():
-            s0.add(c)
-        r0 = s0.check()
-        if r0 == z3.unsat:
-            r = r0
-            backend = "z3(ematching)"
+        for seed in (0, 11, 23):
+            s0 = z3.Solver()
+            s0.set("timeout", min(Z3_TIMEOUT_MS, 4000))
+            s0.set("smt.mbqi", False)
+            s0.set("smt.auto_config", False)
+            s0.set("random_seed", seed)
+            s0.set("smt.random_seed", seed)
+            for c in s.assertions():
+                s0.add(c)
+            r0 = s0.check()
+            if r0 == z3.unsat:
+                r = r0
+                backend = "z3(ematching)"
+                break
     if r == z3.unknown:
         r = s.check()
     res = str(r)
@@ -441,6 +445,19 @@ def run_contract(con, both=False):
                 rec["info"] = {k: (v if isinstance(v, (str, int, float, bool)) else repr(v)) for k, v in ob.info.items()}
                 rec["pc"] = [str(c)[:300] for c in ob.pc][:40]
                 rec["claim"] = str(ob.claim)[:2000]
+                if ob.status == "unknown" and ob.kind in ("post", "inv") and con.replay is not None and not ob.info.get("overapprox"):
+                    # BOUNDED stand-in for an undecided obligation: the contract's native replay searches its
+                    # systematic small inputs; a failing native input is a violation, anything else stays undecided
+                    try:
+                        rr = con.replay({}, rec)
+                    except Exception:
+                        rr = {"confirmed": False, "detail": "replay crashed: " + traceback.format_exc()[-800:]}
+                    if rr.get("confirmed"):
+                        rec["status"] = "refuted"
+                        rec["backend"] = "native-bounded"
+                        rec["replay"] = jsonable(rr)
+                    else:
+                        rec["bounded_search"] = jsonable(rr)
                 if ob.status == "refuted" and ob.kind in ("post", "inv") and con.replay is not None:
                     try:
                         rr = con.replay(dict(ob.model or {}), rec)
